@@ -1,7 +1,11 @@
 (* Checkers evaluated by the correspondence run: each returns the indices of
    the cases on which the model and the implementation's observed output
    differ. *)
-From V Require Import Common.Base C09.Cache.
+From V Require Import Common.Base C09.Cache C09.OptionFields.
+From V Require Import gen.OptionFieldsGen.
+Require Import Coq.Strings.String.
+Open Scope string_scope.
+Open Scope Z_scope.
 
 Fixpoint mism_from {A} (f : A -> bool) (l : list A) (i : nat) : list nat :=
   match l with
@@ -44,3 +48,22 @@ Definition check_fscache := mismatches (fs_steps_ok []).
 Definition si_ok_case (c : Z * list Z * list Z) : bool :=
   let '(next, keys, obs) := c in zlist_eqb (run_si (mkSi [] next) keys) obs.
 Definition check_si := mismatches si_ok_case.
+
+(* option comparison of the real caches, one field toggled at a time:
+   (cache: 0 js 1 css 2 json, flattened field name, observed "second lookup was a hit") *)
+Definition table_of (c : Z) : list ofield :=
+  if c =? 0 then js_option_fields else if c =? 1 then css_option_fields else json_option_fields.
+Definition opteq_ok (c : Z * string * bool) : bool :=
+  let '(cache, name, hit) := c in
+  match predicted_hit (table_of cache) name with
+  | Some h => Bool.eqb h hit
+  | None => false
+  end.
+Definition check_opteq := mismatches opteq_ok.
+
+(* every inventory field that OptionsFromConfig sets was toggled by the harness:
+   one case per cache = (cache, names toggled); mismatch if some field is missing *)
+Definition opteq_complete_ok (c : Z * list string) : bool :=
+  let '(cache, names) := c in
+  forallb (fun f => negb (of_set f) || str_in (of_name f) names) (table_of cache).
+Definition check_opteq_complete := mismatches opteq_complete_ok.
